@@ -394,7 +394,12 @@ def c10_make(rng, tier, i):
     end = ["raw", "x_plus_x", "views_sum", "weighted", "sparse_end", "tuple_out", "independent", "identity"][int(rng.integers(0, 8))]
     x = rng.uniform(0.3, 1.4, size=shape) * rng.choice([-1.0, 1.0], size=shape)
     hist = [str(t) for t in rng.choice(["g1", "g2", "g1", "other", "g3", "jac"], size=int(rng.integers(3, 7)))]
-    return {"kind": "c10", "prog": programs.enc_program(prog), "x": enc(x), "end": end, "hist": hist, "gseed": int(rng.integers(0, 2**31))}
+    # precision mixes: a single-precision argument among double-precision constants, with cotangents of the
+    # output's own or of a wider precision (contributions of different widths meet in one accumulator)
+    prec = ["f64", "f64", "x32", "f64", "x32g64", "f64", "f64", "x32g64"][i % 8]
+    if prec != "f64":
+        x = x.astype(onp.float32)
+    return {"kind": "c10", "prog": programs.enc_program(prog), "x": enc(x), "end": end, "hist": hist, "gseed": int(rng.integers(0, 2**31)), "prec": prec}
 
 
 def _c10_fun(prog, end, xp, U, consts2):
@@ -459,6 +464,10 @@ def c10_case(res, case, tier):
         if not programs.well_scaled(prog, x0, RAW_USER):
             return _nj(res, "ill_scaled")
         gs = {k: common.rand_like(rng, y0) for k in ("g1", "g2", "g3")}
+        if case.get("prec") == "x32g64":
+            gs = {k: common.tree_map(lambda a: onp.asarray(a, dtype=onp.float64) if isinstance(a, onp.ndarray) else a, g) for k, g in gs.items()}
+        if case.get("prec", "f64") != "f64":
+            sig["prec"] = case["prec"]
         compared = 0
         for frozen in (True, False):
             x = x0.copy()
@@ -733,7 +742,7 @@ def _basis(y):
     y = onp.asarray(y)
     out = []
     for idx in onp.ndindex(*y.shape):
-        b = onp.zeros(y.shape)
+        b = onp.zeros(y.shape, dtype=y.dtype if y.dtype.kind == "f" else float)
         b[idx] = 1.0
         out.append(b)
     return out
